@@ -46,6 +46,39 @@ def strip_comments(src):
     return ''.join(out)
 
 
+def strip_verif_blocks(text):
+    """The code under verification is the guard-off code: blank out `#ifdef PGM_INDEX_VERIF ... #endif` blocks
+    (nested #if/#endif balanced), keeping the #else branch of the outermost block, and newlines."""
+    lines = text.split('\n')
+    out = []
+    depth = 0          # depth inside a PGM_INDEX_VERIF block
+    in_else = False
+    for ln in lines:
+        st = ln.strip()
+        if depth == 0:
+            if re.match(r'#\s*ifdef\s+PGM_INDEX_VERIF\b', st):
+                depth = 1
+                in_else = False
+                out.append('')
+                continue
+            out.append(ln)
+            continue
+        if re.match(r'#\s*if', st):
+            depth += 1
+            out.append(ln if (in_else and depth > 1) else '')
+            continue
+        if re.match(r'#\s*endif', st):
+            depth -= 1
+            out.append(ln if (in_else and depth >= 1) else '')
+            continue
+        if depth == 1 and re.match(r'#\s*else', st):
+            in_else = True
+            out.append('')
+            continue
+        out.append(ln if in_else else '')
+    return '\n'.join(out)
+
+
 def match_close(s, i, open_='{', close='}'):
     assert s[i] == open_, (s[i - 10:i + 10], open_)
     d = 0
@@ -75,7 +108,7 @@ class Source:
     def __init__(self, path):
         self.path = path
         self.raw = open(path).read()
-        self.text = strip_comments(self.raw)
+        self.text = strip_verif_blocks(strip_comments(self.raw))
 
     # ---------------------------------------------------------------- classes
     def find_class(self, name, ordinal=0):
